@@ -321,6 +321,12 @@ func init() {
 			return
 		}
 		if _, direct := down.w.(*drive.Recorder); !direct {
+			if c.Attrs["mode"] == "pass-through" && strips == 0 {
+				// The service accepts the client's protocol, codec and compression as they are, and the
+				// request is a plain one of that protocol: it needs no conversion.
+				c.Fail("C13.converted-although-acceptable", "the service accepts the client's protocol, codec and compression, but its handler was given a transcoded request\n%s", desc)
+				return
+			}
 			// transcoded (the transcoder decided conversion is needed): not a pass-through
 			c.Outcome("transcoded")
 			c.Note("transcoded")
